@@ -53,14 +53,16 @@ def snapshot(tx):
             tuple((id(o), o.coin_value, bytes(o.script)) for o in tx.txs_out), tuple(tx.unspents))
 
 
-def judge(code, R, label):
-    """run pycoin on the reference-form transaction R and compare with the reference verdict"""
+def judge(code, R, label, P=None):
+    """run pycoin on the reference-form transaction R (or on the already built and edited object P that R describes) and
+    compare with the reference verdict"""
     M = MAX_MONEY[code]
     verdict, why = wire.check_transaction(R, M)
     ref_cb = wire.is_coinbase(R)
     T = tx_class(code)
     try:
-        P = build(T, R)
+        if P is None:
+            P = build(T, R)
         snap0 = snapshot(P)
     except Exception as e:
         return BAD("construct-raises", "transaction constructs", exc(e), clause="construct")
@@ -246,7 +248,83 @@ class Sizes(Driver):
         return True
 
 
-DRIVERS = [Checks, Sizes]
+class History(Driver):
+    """Mode S: the verdicts must follow the CURRENT inputs of one transaction object, however it was assembled."""
+    id = "C20.history"
+    rule = ("state = one Tx object built by the constructor in one of 3 shapes (no inputs / coinbase / ordinary) and then edited by <= 3 "
+            "operations (append a null-outpoint input, append an ordinary input, remove the last input, rewrite the first input's hash / "
+            "index, call check()+is_coinbase() in between); afterwards check(), is_coinbase() and bad_solution_count() are judged on "
+            "the final fields; non-trivial = the coinbase status changed along the way")
+
+    OPS = ["append-null", "append-A1", "pop", "idx0=max", "idx0=0", "hash0=zero", "hash0=A", "observe"]
+
+    def __init__(self, tier, seed):
+        Driver.__init__(self, tier, seed)
+        self.depth = 3 if tier == "quick" else 4
+        self.coins = ["BTC", "GRS"] if tier == "quick" else list(COINS)
+        self.bound = dict(ops=self.OPS, depth=self.depth, coins=self.coins, starts=["empty", "coinbase", "plain"])
+
+    def units(self):
+        for coin in self.coins:
+            for start in ("empty", "coinbase", "plain"):
+                yield dict(coin=coin, start=start)
+
+    def execute(self, unit):
+        for ln in range(1, self.depth + 1):
+            for seq in itertools.product(self.OPS, repeat=ln):
+                case = dict(coin=unit["coin"], start=unit["start"], ops=list(seq))
+                yield case, self.run(case)
+
+    def run(self, case):
+        A = b"\xa1" * 32
+        mk = lambda prev, idx, sl: {"prev": prev, "index": idx, "script": patbytes(sl, 3), "sequence": U32, "witness": []}
+        ins = {"empty": [], "coinbase": [mk(bytes(32), U32, 2)], "plain": [mk(A, 0, 0)]}[case["start"]]
+        R = {"version": 1, "lock_time": 0, "ins": ins, "outs": [{"value": 1, "script": b"\x51"}]}
+        T = tx_class(case["coin"])
+        changes = 0
+        try:
+            P = build(T, R)
+            for op in case["ops"]:
+                was = wire.is_coinbase(R)
+                if op == "append-null":
+                    P.txs_in.append(T.TxIn(bytes(32), U32, patbytes(2, 3), U32))
+                    R["ins"].append(mk(bytes(32), U32, 2))
+                elif op == "append-A1":
+                    P.txs_in.append(T.TxIn(A, 1, b"", U32))
+                    R["ins"].append(mk(A, 1, 0))
+                elif op == "pop":
+                    if R["ins"]:
+                        P.txs_in.pop()
+                        R["ins"].pop()
+                elif op in ("idx0=max", "idx0=0") and R["ins"]:
+                    v = U32 if op == "idx0=max" else 0
+                    P.txs_in[0].previous_index = v
+                    R["ins"][0]["index"] = v
+                elif op in ("hash0=zero", "hash0=A") and R["ins"]:
+                    v = bytes(32) if op == "hash0=zero" else A
+                    P.txs_in[0].previous_hash = v
+                    R["ins"][0]["prev"] = v
+                elif op == "observe":
+                    try:
+                        P.check()
+                    except Exception:
+                        pass
+                    P.is_coinbase()
+                if wire.is_coinbase(R) != was:
+                    changes += 1
+        except Exception as e:
+            return BAD("history-raises", "the edits work", exc(e), clause="history-raises")
+        out = judge(case["coin"], R, "history:changes%d" % min(changes, 2), P=P)
+        return out
+
+    def nontrivial(self, cls):
+        return "changes0" not in cls
+
+    def selfcheck(self):
+        return 0
+
+
+DRIVERS = [Checks, Sizes, History]
 ASSUMPTIONS = [
     "at most 3 inputs and 3 outputs; values and outpoints from the stated boundary alphabets (full product)",
     "coinbase = exactly one input whose outpoint is (32 zero bytes, 0xffffffff) - the Bitcoin definition; null outpoint = that pair",
